@@ -255,11 +255,23 @@ func cmdCheck(args []string) int {
 		out    string
 		res    *RunResult
 		log    string
+		force  string
 	}
 	var jobsList []*job
 	for _, h := range sel {
 		for _, s := range solvers {
 			if s != "portfolio" && h.Opts["cross"] == "off" {
+				continue
+			}
+			// shard=name:n splits the harness over the values of a nondetChoice
+			if sh := h.Opts["shard"]; sh != "" {
+				name, ns, _ := strings.Cut(sh, ":")
+				var n int
+				fmt.Sscan(ns, &n)
+				for i := 0; i < n; i++ {
+					jobsList = append(jobsList, &job{h: h, solver: s, force: fmt.Sprintf("%s=%d", name, i),
+						out: filepath.Join(tmp, fmt.Sprintf("%s.%s.%d.json", h.Name, s, i))})
+				}
 				continue
 			}
 			jobsList = append(jobsList, &job{h: h, solver: s, out: filepath.Join(tmp, h.Name+"."+s+".json")})
@@ -273,7 +285,7 @@ func cmdCheck(args []string) int {
 			defer wg.Done()
 			sem <- struct{}{}
 			defer func() { <-sem }()
-			cmd := exec.Command(selfExe(), "run", j.h.Name, "--tier", *tier, "--out", j.out, "--pkgdir", j.h.PkgDir, "--solver", j.solver, "--timeout", timeoutMs)
+			cmd := exec.Command(selfExe(), "run", j.h.Name, "--tier", *tier, "--out", j.out, "--pkgdir", j.h.PkgDir, "--solver", j.solver, "--timeout", timeoutMs, "--force", j.force)
 			var ob bytes.Buffer
 			cmd.Stdout = &ob
 			cmd.Stderr = &ob
@@ -291,6 +303,22 @@ func cmdCheck(args []string) int {
 
 	primary := map[string]*RunResult{}
 	var inconcl []string
+	// merge shards
+	merged := map[string]*job{}
+	var mergedList []*job
+	for _, j := range jobsList {
+		key := j.h.Name + "|" + j.solver
+		if m, ok := merged[key]; ok {
+			mergeResult(m.res, j.res)
+			continue
+		}
+		merged[key] = j
+		mergedList = append(mergedList, j)
+	}
+	jobsList = mergedList
+	for _, j := range jobsList {
+		fixWitnessInconcl(j.res)
+	}
 	for _, j := range jobsList {
 		if j.solver == "portfolio" {
 			primary[j.h.Name] = j.res
@@ -530,4 +558,91 @@ func harnessOpt(sel []*HarnessInfo, name, key string) string {
 		}
 	}
 	return ""
+}
+
+// mergeResult folds the result of another shard of the same harness into a.
+func mergeResult(a, b *RunResult) {
+	a.Paths += b.Paths
+	a.PathsDone += b.PathsDone
+	a.Infeasible += b.Infeasible
+	a.Steps += b.Steps
+	a.Queries += b.Queries
+	a.Sat += b.Sat
+	a.Unsat += b.Unsat
+	a.Unknown += b.Unknown
+	a.SolverSec += b.SolverSec
+	if b.MaxQuerySec > a.MaxQuerySec {
+		a.MaxQuerySec = b.MaxQuerySec
+	}
+	if b.WallSec > a.WallSec {
+		a.WallSec = b.WallSec
+	}
+	a.Obligations += b.Obligations
+	a.Discharged += b.Discharged
+	if a.CheckSites == nil {
+		a.CheckSites = map[string]int{}
+	}
+	for k, v := range b.CheckSites {
+		a.CheckSites[k] += v
+	}
+	a.Violations = append(a.Violations, b.Violations...)
+	have := map[string]bool{}
+	for _, w := range a.Witnesses {
+		have[w.Site] = true
+	}
+	for _, w := range b.Witnesses {
+		if !have[w.Site] {
+			a.Witnesses = append(a.Witnesses, w)
+		}
+	}
+	for _, m := range b.Inconcl {
+		// a check site unreachable in one shard may be reached in another
+		if strings.HasPrefix(m, "no reachability witness") {
+			continue
+		}
+		a.Inconcl = append(a.Inconcl, m)
+	}
+	if a.Functions == nil {
+		a.Functions = map[string]int{}
+	}
+	for k, v := range b.Functions {
+		a.Functions[k] = v
+	}
+	if a.Intrinsics == nil {
+		a.Intrinsics = map[string]int{}
+	}
+	for k, v := range b.Intrinsics {
+		a.Intrinsics[k] += v
+	}
+	for k, v := range b.Bounds {
+		if a.Bounds == nil {
+			a.Bounds = map[string]int64{}
+		}
+		a.Bounds[k] = v
+	}
+	a.Samples = append(a.Samples, b.Samples...)
+	if a.Doc == "" {
+		a.Doc = b.Doc
+	}
+}
+
+func fixWitnessInconcl(r *RunResult) {
+	var keep []string
+	for _, m := range r.Inconcl {
+		if !strings.HasPrefix(m, "no reachability witness") {
+			keep = append(keep, m)
+		}
+	}
+	have := map[string]bool{}
+	for _, w := range r.Witnesses {
+		have[w.Site] = true
+	}
+	if len(r.Violations) == 0 {
+		for site := range r.CheckSites {
+			if !have[site] {
+				keep = append(keep, "no reachability witness for check site: "+site)
+			}
+		}
+	}
+	r.Inconcl = keep
 }
